@@ -401,6 +401,13 @@ func (h *Handler) handleCopyMove(w http.ResponseWriter, r *http.Request) (status
 		return copyFiles(ctx, h.FileSystem, src, dst, r.Header.Get("Overwrite") != "F", depth, 0)
 	}
 
+	if strings.HasPrefix(slashClean(dst), slashClean(src)+"/") {
+		// A resource cannot be moved into itself. Refuse before the
+		// Overwrite rule deletes the destination, which is part of the
+		// source.
+		return http.StatusForbidden, errInvalidDestination
+	}
+
 	release, status, err := h.confirmLocks(r, src, dst)
 	if err != nil {
 		return status, err
